@@ -405,9 +405,7 @@ func init() {
 		for i := range es {
 			es[i] = in.zero(et)
 		}
-		if in.P != nil {
-			in.P.allocs = append(in.P.allocs, cp)
-		}
+		in.noteAlloc(cp)
 		s := in.mkSlice(et, es)
 		s.ln = ln
 		return RValue{t: t, val: s, valid: true}
